@@ -103,6 +103,7 @@ func (this *NodesManager) tryJoin(ctx context.Context, address string) error {
 		return err
 	}
 
+	verifJoinReply()
 	for {
 		node, err := nodesStream.Recv()
 		if err == io.EOF {
